@@ -138,7 +138,7 @@ def stressors():
     return out
 
 
-def make_cases(inputs, per_case, prefix):
+def make_cases(inputs, per_case, prefix, tiny_arena=False):
     cases = []
     incs = dict(INCLUDES)
     for d in (1, 15, 16, 17, 18, 20, 25):
@@ -148,11 +148,15 @@ def make_cases(inputs, per_case, prefix):
     for i in range(0, len(inputs), per_case):
         chunk = inputs[i:i + per_case]
         lines = list(incl)
+        if tiny_arena:
+            # hook H1: 64-byte arena buffers that grow by exactly what is needed, so every buffer moves many times while
+            # these sources are parsed (and while their error paths unwind)
+            lines.append("arena 64 1")
         for kind, text in chunk:
             lines += ["cnew 0", "cdef 0 i %s 3" % hx("ext_i"), "cdef 0 s %s %s" % (hx("ext_s"), hx("v")), "cdef 0 b %s 1" % hx("ext_b"),
                       "cdef 0 f %s 1.5" % hx("ext_f"), "cadd 0 - " + hx(text.encode("latin-1", "replace")), "crules 0 0"]
         lines += ["cnew 1", "cadd 1 - " + hx(SENTINEL), "crules 1 1", "buf 0 " + hx(b"xx needle"), "scan r1 mem 0 0 0 -"]
-        cases.append(Case("%s%d" % (prefix, i // per_case), lines, dict(inputs=chunk)))
+        cases.append(Case("%s%d" % (prefix, i // per_case), lines, dict(inputs=chunk, tiny=tiny_arena)))
     return cases
 
 FS_FILES = {
@@ -363,14 +367,15 @@ def main(args):
     seed_texts = seeds(rng)
     cap = int((140 if args.tier == "quick" else 100000) * args.scale)
     inputs = sweep_inputs(rng, seed_texts, cap) + stressors()
-    cases = make_cases(inputs, 40, "b") + fs_cases(6)
+    tiny = stressors() + inputs[:int(400 * args.scale)]
+    cases = make_cases(inputs, 40, "b") + fs_cases(6) + make_cases(tiny, 20, "t", tiny_arena=True)
     stats = dict(inputs=0, rejected=0, accepted=0, nontrivial=set(), kinds={}, messages=set(), samples=[])
     results = harness.run_cases(exe, cases, "c07", cpu=300, batch=2)
-    retry = []
+    retry, retry_tiny = [], []
     for c in cases:
-        retry += check_case(chk, c, results[c.cid], stats)
-    if retry:
-        singles = make_cases(retry, 1, "s")
+        (retry_tiny if c.meta.get("tiny") else retry).extend(check_case(chk, c, results[c.cid], stats))
+    singles = make_cases(retry, 1, "s") + make_cases(retry_tiny, 1, "st", tiny_arena=True)
+    if singles:
         res2 = harness.run_cases(exe, singles, "c07s", cpu=120, batch=8)
         for c in singles:
             check_case(chk, c, res2[c.cid], stats, single=True)
@@ -386,7 +391,8 @@ def main(args):
              "quick tier); (2) size stressors around the lexer buffer, identifier limit, nesting depth, include errors "
              "(in-memory include callback, and the default file-system callback on a private directory with regular, "
              "empty, missing, nested, self-including files and directories; the harness compares the number of open "
-             "descriptors before and after every case); "
+             "descriptors before and after every case); the stressors and a slice of the sweep are compiled a second time "
+             "with 64-byte arena buffers and exact growth (hook H1) so that every arena buffer moves while parsing; "
              "each input is compiled in the yrh harness under ASan+UBSan+LSan (40 per process, batches implicated in a "
              "crash/leak/hang are re-run input by input) and the diagnosis contract is checked; a sentinel compile+scan "
              "ends every batch; (3) libFuzzer (clang, ASan+UBSan+LSan) on yr_compiler_add_string + get_rules + destroy "
